@@ -35,6 +35,34 @@ Print Assumptions C08_rowwise.
 Print Assumptions C08_batching.
 Print Assumptions C08_first_argmax.
 
+(* ---- the label-map carrying estimators (DualVigilanceART, SimpleARTMAP; ARTMAP and every DeepARTMAP layer predict
+        through SimpleARTMAP): row-wise, the map image of the base module's oldest arg-max, inside the trained range ---- *)
+From ART Require Import SimpleARTMAP DualVig DualVig_proofs Wrap_pred.
+Theorem C08_dualvigilance_prediction_is_map_of_argmax :
+  forall (N : Num) (K : Kernel N) (s : dv (N:=N)) x l,
+    dv_step_pred K s x = Some l -> exists c, step_pred K (DB s) x = Some c /\ lookup (dmap s) c = Some l.
+Proof. exact @dv_step_pred_is_map_of_argmax. Qed.
+Theorem C08_dualvigilance_prediction_in_trained_range :
+  forall (N : Num) (K : Kernel N) (s : dv (N:=N)) x l,
+    DInv s -> W (DB s) <> [] -> dv_step_pred K s x = Some l -> l < dv_n_clusters s.
+Proof. exact @dv_step_pred_in_range. Qed.
+Theorem C08_dualvigilance_rowwise :
+  forall (N : Num) (K : Kernel N) (s : dv (N:=N)) X ys i x,
+    dv_predict K s X = Some ys -> nth_error X i = Some x ->
+    exists l, nth_error ys i = Some l /\ dv_step_pred K s x = Some l.
+Proof. exact @dv_predict_rowwise. Qed.
+Theorem C08_simpleartmap_prediction_is_map_of_argmax :
+  forall (N : Num) (K : Kernel N) (s : sam (N:=N)) x ca cb,
+    sam_step_pred K s x = Some (ca, cb) -> step_pred K (A s) x = Some ca /\ lookup (mp s) ca = Some cb.
+Proof. exact @sam_step_pred_is_map_of_argmax. Qed.
+Theorem C08_simpleartmap_rowwise :
+  forall (N : Num) (K : Kernel N) (s : sam (N:=N)) X ys i x,
+    sam_predict_ab K s X = Some ys -> nth_error X i = Some x ->
+    exists p, nth_error ys i = Some p /\ sam_step_pred K s x = Some p.
+Proof. exact @sam_predict_rowwise. Qed.
+Print Assumptions C08_dualvigilance_prediction_in_trained_range.
+Print Assumptions C08_simpleartmap_rowwise.
+
 From Coq Require Import QArith.
 Open Scope Q_scope.
 Example C08_example_tie_to_oldest :
